@@ -932,11 +932,22 @@ class Workspace(AbstractContextManager):
         )
         self.close()
 
+    @staticmethod
+    def _active_referent(referents: dict[uuid.UUID, ReferenceType], uid: uuid.UUID):
+        """
+        Referent registered under a unique identifier, None if absent or no longer alive.
+
+        The key of a dead reference is left to :func:`Workspace.remove_none_referents`,
+        which deletes the entity from the geoh5 along with it.
+        """
+        ref = referents.get(uid, None)
+        return None if ref is None else ref()
+
     def find_data(self, data_uid: uuid.UUID) -> Entity | None:
         """
         Find an existing and active Data entity.
         """
-        return weakref_utils.get_clean_ref(self._data, data_uid)
+        return self._active_referent(self._data, data_uid)
 
     def find_entity(self, entity_uid: uuid.UUID) -> Entity | PropertyGroup | None:
         """Get all active entities registered in the workspace."""
@@ -951,7 +962,7 @@ class Workspace(AbstractContextManager):
         """
         Find an existing and active Group object.
         """
-        return weakref_utils.get_clean_ref(self._groups, group_uid)
+        return self._active_referent(self._groups, group_uid)
 
     def find_property_group(
         self, property_group_uid: uuid.UUID
@@ -959,13 +970,13 @@ class Workspace(AbstractContextManager):
         """
         Find an existing and active PropertyGroup object.
         """
-        return weakref_utils.get_clean_ref(self._property_groups, property_group_uid)
+        return self._active_referent(self._property_groups, property_group_uid)
 
     def find_object(self, object_uid: uuid.UUID) -> ObjectBase | None:
         """
         Find an existing and active Object.
         """
-        return weakref_utils.get_clean_ref(self._objects, object_uid)
+        return self._active_referent(self._objects, object_uid)
 
     def find_type(
         self, type_uid: uuid.UUID, type_class: type[EntityType]
@@ -975,7 +986,7 @@ class Workspace(AbstractContextManager):
         :param type_uid: Unique identifier of target type.
         :param type_class: The type of entity to find.
         """
-        found_type = weakref_utils.get_clean_ref(self._types, type_uid)
+        found_type = self._active_referent(self._types, type_uid)
         return found_type if isinstance(found_type, type_class) else None
 
     @property
